@@ -163,7 +163,7 @@ def classify(prog, v):
             pid = "C05"
         else:
             pid = "C01" if evk == "enc" else "C02"
-        out.append((pid, kind + (":" + fk if fk else "")))
+        out.append((pid, kind + (":" + fk if fk else "") + (":reused-receiver" if v["meta"].get("reused") else "")))
         if evk == "dec" and not kind.startswith("reencode"):
             out.append(("C03", "decoder-rejects-canonical:" + kind))
     return out
@@ -198,6 +198,11 @@ def check_codec(pid, tier):
             sig = "%s|%s|%s" % (lang, prog["id"], kind)
             if sig not in failing:
                 failing[sig] = (v, prog)
+    # a failure on a reused receiver is a finding of its own only when the same cell does not already fail
+    # on a fresh object (otherwise it is the same defect seen twice)
+    for sig in [x for x in failing if x.endswith(":reused-receiver")]:
+        if sig[:-len(":reused-receiver")] in failing:
+            del failing[sig]
     # every exercised (lang, program) pair is a cell; failing ones carry their kind
     relevant = {"C01": ("enc",), "C02": ("dec",), "C03": ("enc", "dec", "agree", "xdec"), "C04": ("enc", "dec"), "C05": ("dec", "deckey", "enc"),
                 "C06": ("enc", "dec")}[pid]
